@@ -18,11 +18,25 @@ func init() {
 	reg("time.Now", func(e *Engine, st *State, args []Value, fn *ssa.Function) []Outcome {
 		t := e.tb
 		if e.cfg.FixedClock {
+			// one fixed instant; vpClockAlign moves it to the requested second of its minute, vpSleep advances it
 			var loc Value = &PtrV{}
 			if g, ok := fn.Pkg.Members["localLoc"].(*ssa.Global); ok {
 				loc = e.globalPtr(g)
 			}
-			return one(st, &StructV{F: []Value{t.Int64(0), t.Int64(1_700_000_000 + unixToInternal), loc}})
+			base := int64(1_700_000_000 - 1_700_000_000%60)
+			if b, ok := st.aux["clock.fixed"]; ok {
+				base = b.(*Term).SVal()
+			}
+			if al, ok := st.aux["clock.align"]; ok && al.(*Term).IsConst() {
+				base = base - base%60 + al.(*Term).SVal()
+				delete2(st, "clock.align")
+			}
+			if sl, ok := st.aux["clock.sleep"]; ok && sl.(*Term).IsConst() {
+				base += sl.(*Term).SVal()
+				delete2(st, "clock.sleep")
+			}
+			st.setAux("clock.fixed", t.Int64(base))
+			return one(st, &StructV{F: []Value{t.Int64(0), t.Int64(base + unixToInternal), loc}})
 		}
 		nsec30 := t.Fresh("now.nsec", 30)
 		nsec := t.ZExt(nsec30, 64)
